@@ -176,7 +176,7 @@ func (g *gen) queues(sn server.VerifSnapshot) []qinfo {
 
 func (g *gen) existingQueue(sn server.VerifSnapshot) string {
 	qs := g.queues(sn)
-	if len(qs) == 0 || g.r.Chance(1, 12) {
+	if len(qs) == 0 || g.r.Chance(1, 30) {
 		return g.pick(qnames)
 	}
 	return qs[g.r.Intn(len(qs))].name
@@ -190,7 +190,7 @@ func (g *gen) existingExchange(sn server.VerifSnapshot, allowDefault bool) strin
 		}
 		xs = append(xs, e.Name)
 	}
-	if len(xs) == 0 || g.r.Chance(1, 15) {
+	if len(xs) == 0 || g.r.Chance(1, 40) {
 		return "nox"
 	}
 	x := xs[g.r.Intn(len(xs))]
@@ -345,15 +345,18 @@ func (g *gen) stepRandom() {
 	}
 	key := [2]int{c, h}
 	k := g.r.Intn(1000)
+	if len(g.queues(sn)) == 0 && g.r.Chance(4, 5) {
+		k = 0 // nothing to work with yet: declare a queue
+	}
 	switch {
 	case k < 90: // queue.declare
 		name := g.pick(qnames)
-		pas := g.b(1, 8)
-		g.do(fmt.Sprintf("QD %d %d %s %s %s %s %s %s", c, h, name, g.b(1, 3), g.b(1, 7), g.b(1, 6), pas, g.b(1, 10)))
+		pas := g.b(1, 12)
+		g.do(fmt.Sprintf("QD %d %d %s %s %s %s %s %s", c, h, name, g.b(1, 3), g.b(1, 8), g.b(1, 7), pas, g.b(1, 12)))
 	case k < 120: // exchange.declare
-		ty := []string{"direct", "fanout", "topic", "headers", "direct", "fanout", "topic", "bogus"}[g.r.Intn(8)]
+		ty := []string{"direct", "fanout", "topic", "headers", "direct", "fanout", "topic", "direct", "fanout", "topic", "bogus"}[g.r.Intn(11)]
 		name := g.pick(xnames)
-		if g.r.Chance(1, 15) {
+		if g.r.Chance(1, 25) {
 			name = "amq.x"
 		}
 		g.do(fmt.Sprintf("XD %d %d %s %s %s %s %s %s %s", c, h, name, ty, g.b(1, 3), g.b(1, 8), g.b(1, 8), g.b(1, 8), g.b(1, 10)))
@@ -416,8 +419,10 @@ func (g *gen) stepRandom() {
 	case k < 590: // cancel
 		ch := chanSnap(sn, c, h)
 		tag := "tx"
-		if ch != nil && len(ch.Consumers) > 0 && g.r.Chance(9, 10) {
+		if ch != nil && len(ch.Consumers) > 0 && g.r.Chance(14, 15) {
 			tag = ch.Consumers[g.r.Intn(len(ch.Consumers))].Tag
+		} else if g.r.Chance(4, 5) {
+			return
 		}
 		g.do(fmt.Sprintf("CANCEL %d %d %s %s", c, h, tag, g.b(1, 10)))
 	case k < 660: // get
@@ -425,8 +430,10 @@ func (g *gen) stepRandom() {
 	case k < 800: // ack / nack / reject
 		tags := g.outstanding[key]
 		tag := 0
-		if len(tags) > 0 && g.r.Chance(9, 10) {
+		if len(tags) > 0 && g.r.Chance(14, 15) {
 			tag = tags[g.r.Intn(len(tags))]
+		} else if len(tags) == 0 && g.r.Chance(5, 6) {
+			return
 		} else if g.r.Chance(1, 2) {
 			tag = 1 + g.r.Intn(6)
 		} else {
@@ -509,7 +516,7 @@ func (g *gen) stepRandom() {
 			g.do(fmt.Sprintf("CLOSE %d", c))
 		}
 		g.dropConn(c)
-	case k < 990: // unsupported methods
+	case k < 985: // unsupported methods
 		switch g.r.Intn(3) {
 		case 0:
 			g.do(fmt.Sprintf("TXSELECT %d %d", c, h))
